@@ -10,4 +10,5 @@ func genMore() {
 	genTrackConsts()
 	genMapRanges()
 	genShipped()
+	genGuards()
 }
